@@ -4,7 +4,7 @@
     (Gen.Gen_Registry: the two arrays of each registry as written, with their #ifdef nesting), plus
     non-vacuity examples.  [cfg : string -> bool] ranges over ALL assignments of the guard macros. *)
 From Coq Require Import String List Bool ZArith.
-From Snoopy Require Import Registry.Model Registry.Proofs Registry.Exec.
+From Snoopy Require Import Registry.Model Registry.Proofs Registry.Exec Registry.Options.
 From Gen Require Import Gen_Registry.
 Import ListNotations.
 Local Open Scope string_scope.
@@ -140,6 +140,25 @@ Example C13_check_rejects_guard_mismatch :
   /\ call "" bad (switch_off "SNOOPY_CONF_FILTER_ENABLED_a" all_on) "b" = Called "snoopy_filter_a".
 Proof. vm_compute. repeat split. Qed.
 
+(** ** EXTENSION (not one of the three registries the property names): the option registry of src/configfile.c.
+    In every configuration an option name of snoopy.ini selects its own parser snoopy_configfile_parseValue_<name> and
+    its own getter snoopy_configfile_getOptionValueAsString_<name>; any other name is "not supported"; the loops stay in the array. *)
+Lemma gen_options_ok : opt_well_formed Gen_Registry.options = true.
+Proof. vm_compute. reflexivity. Qed.
+Theorem C13ext_option_own_parser_getter : forall cfg n,
+    match opt_find Gen_Registry.options cfg n with
+    | OFound _ p g => opt_enabled Gen_Registry.options cfg n = true /\ p = parser_of n /\ g = getter_of n
+    | ONotSupported => opt_enabled Gen_Registry.options cfg n = false
+    | OOutOfBounds => False
+    end.
+Proof. exact (opt_lookup_own Gen_Registry.options gen_options_ok). Qed.
+Example C13ext_options_nonvacuous :
+  opt_find Gen_Registry.options all_on "filter_chain" = OFound 1 "snoopy_configfile_parseValue_filter_chain" "snoopy_configfile_getOptionValueAsString_filter_chain"
+  /\ opt_find Gen_Registry.options all_off "filter_chain" = ONotSupported
+  /\ opt_find Gen_Registry.options all_off "message_format" = OFound 1 "snoopy_configfile_parseValue_message_format" "snoopy_configfile_getOptionValueAsString_message_format"
+  /\ opt_find Gen_Registry.options all_on "" = ONotSupported.
+Proof. vm_compute. repeat split. Qed.
+
 Print Assumptions C13_lookup_own.
 Print Assumptions C13_off_is_unknown.
 Print Assumptions C13_available_iff_enabled.
@@ -152,3 +171,4 @@ Print Assumptions C13_call_by_id_own.
 Print Assumptions C13_names_NoDup.
 Print Assumptions C13_guards_match.
 Print Assumptions C13_model_meets_spec.
+Print Assumptions C13ext_option_own_parser_getter.
